@@ -367,3 +367,39 @@ def _subst(node: ast.AST, env: dict) -> ast.AST:
         def visit_Name(self, n):
             return env[n.id] if n.id in env and isinstance(n.ctx, ast.Load) else n
     return T().visit(fresh)
+
+
+# ------------------------------------------------------------------------------------------- rule vocabulary guard
+
+def bound_names(fn: ast.AST) -> set[str]:
+    """names bound in a function (parameters, assignments, loop/with/except targets, walrus, nested defs) or declared nonlocal"""
+    out = set()
+    if isinstance(fn, (ast.FunctionDef, ast.AsyncFunctionDef, ast.Lambda)):
+        a = fn.args
+        out |= {x.arg for x in a.posonlyargs + a.args + a.kwonlyargs}
+        if a.vararg:
+            out.add(a.vararg.arg)
+        if a.kwarg:
+            out.add(a.kwarg.arg)
+    for n in ast.walk(fn):
+        if isinstance(n, ast.Name) and isinstance(n.ctx, (ast.Store, ast.Del)):
+            out.add(n.id)
+        elif isinstance(n, (ast.Nonlocal, ast.Global)):
+            out.update(n.names)
+        elif isinstance(n, (ast.FunctionDef, ast.AsyncFunctionDef, ast.ClassDef)) and n is not fn:
+            out.add(n.name)
+        elif isinstance(n, ast.ExceptHandler) and n.name:
+            out.add(n.name)
+        elif isinstance(n, ast.arg):
+            out.add(n.arg)
+    return out
+
+
+def expect_locals(mod: Module, fn: ast.AST, names, why: str = ''):
+    """The rules of this repository-specific checker are written in the vocabulary of the code they were confirmed on
+    (the names of a handful of locals). If one of those names is no longer bound in the anchored function the rule
+    cannot be trusted either way: that is UNRESOLVED (exit 2, 're-anchor me'), never a violation."""
+    have = bound_names(fn)
+    missing = [n for n in names if n not in have]
+    if missing:
+        raise Unresolved(f'{mod.relpath}:{qualname(fn)}: local name(s) {missing} that the rules refer to are no longer bound here{(" (" + why + ")") if why else ""}; the checker needs re-anchoring')
